@@ -78,6 +78,8 @@ func runC02(p *core.Prog, r *core.Report) {
 	c02R8(p, r)
 	c02R9(p, r)
 	c02R10(p, r)
+	c02R11(p, r)
+	c02R12(p, r)
 }
 
 // rootedAt reports whether address a is (a field/element chain of) field `field` of receiver recv.
@@ -1092,4 +1094,91 @@ func c02R10(p *core.Prog, r *core.Report) {
 	if n == 0 {
 		r.MissingAnchor(rule, "manifest.New calls with WithRaw")
 	}
+}
+
+// c02R11: what sits in the client's manifest cache under a digest is the manifest that was pushed or
+// fetched under that digest. A manifest rebuilt from the parsed structure (WithOrig) is a fresh
+// serialisation with its own bytes and digest.
+func c02R11(p *core.Prog, r *core.Report) {
+	const rule = "C02.R11"
+	r.Rule(rule, "the cache holds the bytes it is keyed by: no manifest stored into a cache of scheme/reg originates from a manifest.New that was given WithOrig (a re-serialisation), looked at through the package's helpers", 1)
+	n := 0
+	lab := map[*ssa.Function]labeler{}
+	for _, cc := range regCacheCalls(p) {
+		if cc.method != "Set" {
+			continue
+		}
+		val := core.CallArg(cc.c, 2)
+		if !isManifestValue(p, val) {
+			continue
+		}
+		n++
+		fn := cc.c.Parent()
+		if lab[fn] == nil {
+			lab[fn] = labeler{}
+		}
+		bad := false
+		for _, o := range core.Origins(val, core.SliceOpts{Helpers: core.Helpers(fn, 2)}) {
+			if o.Kind != core.OCall || !core.IsModFunc(o.Callee(), "types/manifest", "New") || len(o.Call.Call.Args) == 0 {
+				continue
+			}
+			for _, oc := range optCalls(o.Call.Call.Args[0]) {
+				if cal := core.Callee(oc); cal != nil && cal.Name() == "WithOrig" {
+					bad = true
+				}
+			}
+		}
+		r.Check(!bad, rule, p.FuncName(fn), lab[fn].next("manifest cached"), p.Pos(cc.c.Pos()), "the cached manifest is rebuilt from the parsed structure: its bytes are a new serialisation with another digest and size than the digest it is stored under, and a get or head by that digest answers from the cache without verification")
+	}
+	if n == 0 {
+		r.MissingAnchor(rule, "manifests stored into the caches of scheme/reg")
+	}
+}
+
+// c02R12: the digest a caller pins (in the descriptor or in the reference) is the expected digest. The
+// registry's own announcement (Docker-Content-Digest) is used only when the caller pinned nothing.
+func c02R12(p *core.Prog, r *core.Report) {
+	const rule = "C02.R12"
+	r.Rule(rule, "the pinned digest outranks the announced one: in manifest.New the store of the reference's digest into the expected descriptor cannot be reached after the store of the digest header (both are taken only when nothing is expected yet, so whichever comes first wins)", 1)
+	fn := p.Func("types/manifest", "New")
+	if fn == nil {
+		r.MissingAnchor(rule, "types/manifest.New")
+		return
+	}
+	var refStores, hdrStores []*ssa.Store
+	for _, f := range sortedFuncs(core.Helpers(fn, 1)) {
+		for _, fs := range fieldStores([]*ssa.Function{f}, func(n *types.Named, fld string) bool { return fld == "Digest" && n.Obj().Name() == "Descriptor" }) {
+			for _, o := range core.Origins(fs.Store.Val, core.SliceOpts{Through: func(c *ssa.Call) []int {
+				if cal := core.Callee(c); cal != nil && (cal.Name() == "Parse" || cal.Name() == "Digest") && cal.Pkg() != nil && strings.Contains(cal.Pkg().Path(), "go-digest") {
+					return []int{0}
+				}
+				return nil
+			}}) {
+				switch {
+				case o.Kind == core.OField && o.Field == "Digest" && !isDigestType(o.Val.Type()):
+					refStores = append(refStores, fs.Store) // the string field Ref.Digest
+				case o.Kind == core.OCall && o.Callee() != nil && o.Callee().Name() == "Get":
+					for _, a := range o.Call.Call.Args {
+						if sv, ok := core.ConstString(a); ok && strings.EqualFold(sv, "Docker-Content-Digest") {
+							hdrStores = append(hdrStores, fs.Store)
+						}
+					}
+				}
+			}
+		}
+	}
+	if len(refStores) == 0 || len(hdrStores) == 0 {
+		r.Undecided(rule, p.FuncName(fn), "expected digest sources", p.Pos(fn.Pos()), fmt.Sprintf("%d store(s) from the reference digest, %d from the digest header found", len(refStores), len(hdrStores)))
+		return
+	}
+	bad := false
+	for _, h := range hdrStores {
+		after := (core.Reach{}).FromInstr(h)
+		for _, rs := range refStores {
+			if rs.Parent() == h.Parent() && after[rs] {
+				bad = true
+			}
+		}
+	}
+	r.Check(!bad, rule, p.FuncName(fn), "reference digest before header digest", p.Pos(hdrStores[0].Pos()), "the digest header is taken before the reference's digest: a pull of repo@A that is answered with a self-consistent body B announced as B is accepted, the caller gets bytes that do not hash to the digest it asked for")
 }
